@@ -27,6 +27,71 @@ SPECIALS_ORACLE = {'~': ' ', '``': '“', "''": '”', '--': '–', '---': '—
                    '!`': '¡', '?`': '¿'}
 
 
+def _concat_parts(e):
+    """flatten a + b + c into parts, merging adjacent string constants"""
+    parts = []
+
+    def rec(x):
+        if isinstance(x, ast.BinOp) and isinstance(x.op, ast.Add):
+            rec(x.left)
+            rec(x.right)
+        elif isinstance(x, ast.Constant) and isinstance(x.value, str) and parts and \
+                isinstance(parts[-1], ast.Constant):
+            parts[-1] = ast.Constant(value=parts[-1].value + x.value)
+        else:
+            parts.append(x)
+    rec(e)
+    return parts
+
+
+def indented_block_shape(fb):
+    """(True, '') when every structural path of _fmt_indented_block returns
+    NL* + indent + contents.replace(NL, NL + indent) + NL*  (every line of the contents,
+    empty ones included, starts with the indent; with indent='' the contents are unchanged);
+    (False, reason) for a recognised deviation; (None, reason) when the shape is not understood."""
+    from .. import symex
+    params = [a.arg for a in fb.args.args]
+    if len(params) < 3:
+        return None, 'signature changed'
+    cpar, ipar = params[1], params[2]
+    try:
+        cases = symex.return_cases(fb, pure=('replace', 'indent', 'join', 'splitlines', 'split'))
+    except symex.TooManyPaths as e:
+        return None, str(e)
+    if not cases:
+        return None, 'no return'
+    for cs in cases:
+        parts = _concat_parts(cs.sub)
+        path = ' & '.join(cs.cond_src())[:80]
+        for x in parts:
+            for c in ast.walk(x):
+                if isinstance(c, ast.Call) and call_name(c) == 'indent' and 'textwrap' in unparse(c.func):
+                    pred = kwarg(c, 'predicate') or (c.args[2] if len(c.args) > 2 else None)
+                    if pred is None:
+                        return False, ('textwrap.indent() leaves empty and whitespace-only lines '
+                                       'unindented: an empty display formula or a blank line inside one '
+                                       'is not indented (path [%s])' % path)
+                    return None, 'textwrap.indent with a predicate'
+        if len(parts) != 4:
+            return None, 'returned value %s is not NL + indent + body + NL' % short(cs.sub, 90)
+        a, b, c, d = parts
+        nl = lambda x: isinstance(x, ast.Constant) and isinstance(x.value, str) and x.value and set(x.value) == {'\n'}
+        if not (nl(a) and nl(d)):
+            return False, 'the block is not delimited by newlines only (%s ... %s)' % (short(a), short(d))
+        if not (isinstance(b, ast.Name) and b.id == ipar):
+            return False, 'the first line is prefixed by %s, not by the indent parameter' % short(b)
+        okc = isinstance(c, ast.Call) and call_name(c) == 'replace' and unparse(call_recv(c)) == cpar and \
+            len(c.args) == 2 and isinstance(c.args[0], ast.Constant) and c.args[0].value == '\n'
+        if okc:
+            rp = _concat_parts(c.args[1])
+            okc = len(rp) == 2 and isinstance(rp[0], ast.Constant) and rp[0].value == '\n' and \
+                isinstance(rp[1], ast.Name) and rp[1].id == ipar
+        if not okc:
+            return False, ('the body is %s, not %s.replace(NL, NL + %s): some lines of a display '
+                           'formula are not indented by the indent' % (short(c, 80), cpar, ipar))
+    return True, ''
+
+
 def run(ctx):
     repo = ctx.repo
     m = repo.mod(L2T)
@@ -199,6 +264,14 @@ def run(ctx):
                'text mode: inline -> content, display/environment -> indented block',
                'text mode returns %s' % got, construct='math text-mode returns')
     fb = meths.get('_fmt_indented_block')
+    if fb is not None:
+        v, why = indented_block_shape(fb)
+        if v is None:
+            ctx.unknown('R03f', m, fb, why, construct='_fmt_indented_block: every line indented')
+        else:
+            ctx.decide('R03f', v, m, fb, 'block = newline + indent + contents with every newline followed '
+                                         'by the indent + newline', '_fmt_indented_block: %s' % why,
+                       construct='_fmt_indented_block: every line indented')
     d = fb.args.defaults[0] if fb is not None and fb.args.defaults else None
     ok = d is not None and unparse(d).replace('"', "'") in ("' ' * 4", "'    '")
     ctx.decide('R03f', ok, m, fb or mf, 'display math is indented by four spaces',
@@ -232,10 +305,18 @@ def run(ctx):
         l = loops[0]
         lv = unparse(l.target)
         adds = [s for s in l.body if isinstance(s, ast.AugAssign) and 'self.node_to_text(%s' % lv in unparse(s.value)]
-        prev = [s for s in l.body if isinstance(s, ast.Assign) and unparse(s.targets[0]) == 'prev_node'
-                and unparse(s.value) == lv]
-        ok = len(adds) == 1 and len(prev) == 1 and not any(
-            isinstance(x, (ast.Break, ast.Continue)) for x in ast.walk(l))
+        from .. import symex
+        ends = [c for c in symex.Walker(want_exits=True).run_block(l.body) if c.kind == 'end']
+        stale = [c for c in ends if not (isinstance(c.env.get('prev_node'), ast.Name)
+                                         and c.env['prev_node'].id == lv)]
+        ok = len(adds) == 1 and not any(isinstance(x, (ast.Break, ast.Continue)) for x in ast.walk(l))
+        ctx.decide('R03h', bool(ends) and not stale, m, l,
+                   'prev_node is the node just rendered at the end of every iteration (%d path(s))' % len(ends),
+                   'on the path [%s] an iteration ends without prev_node being the node just rendered: '
+                   'the post-space of an earlier bare macro is emitted after a node that came in '
+                   'between (e.g. after a comment\'s line break)'
+                   % (' & '.join(stale[0].cond_src())[-120:] if stale else ''),
+                   construct='nodelist_to_text: previous node')
     ctx.decide('R03h', ok, m, loops[0] if loops else nl,
                'every node rendered once, in order, appended to the result',
                'nodelist_to_text does not append the rendering of every node in order',
